@@ -152,7 +152,22 @@ def reorder_ops(rnd, n, printer):
     ops = [{"op": "new"}]
     perm = list(range(n))
     rnd.shuffle(perm)
+    wf, held = 0, set()
     for i in perm:
+        if printer:
+            # a flush at a random point prints what is held back and continues after the largest serial
+            if held and rnd.random() < 0.03:
+                ops.append({"op": "flush"})
+                wf, held = max(held) + 1, set()
+            if i < wf:
+                continue
+            if i == wf:
+                wf += 1
+                while wf in held:
+                    held.discard(wf)
+                    wf += 1
+            else:
+                held.add(i)
         ops.append({"op": "print" if printer else "put", "i": i})
         r = rnd.random()
         if r < 0.25 and not printer:
@@ -193,7 +208,7 @@ def run(ctx):
         model.mc(spec, consts, ctx, name, invariants=invs, properties=props)
         model.mc(spec, dict(consts, **neg), ctx, name + "_neg", invariants=invs, properties=props, expect_violation=True)
         g, _ = graphwalk.emit_graph(spec, model.cfg_text(consts, view="View", action_constraint="Emit"), ctx, name)
-        st = graphwalk.walk(g, adapter, ctx, name)
+        st = graphwalk.walk(g, adapter, ctx, name, paths_per_state=4)
         ctx.note("walk %s" % st)
     ctx.exhaustive = True
     rnd = random.Random(ctx.seed * 7919 + 15)
